@@ -4,6 +4,7 @@
 package snaps
 
 import (
+	"github.com/gkampitakis/go-snaps/match"
 	"encoding/json"
 	"fmt"
 	"os"
@@ -136,7 +137,23 @@ func checkC14(c c14Case) error {
 		return fmt.Errorf("the default configuration stores %q differently after calls with options %+v (member order must not matter, keys are sorted by default):\nbefore %q\nafter  %q", clip(compact), c.Opt, clip(defBefore), clip(defAfter))
 	}
 	// Go values of defined string / byte-slice types go through their standard JSON encoding
-	for _, v := range []any{namedString("active"), namedString("12"), namedString(`{"a":1}`), namedBytes("blob"), json.RawMessage(compact), []string{"a", "<b>"}, map[namedString]int{"k": 1}} {
+	vi := 0
+	type unsortedFields struct {
+		Zeta  int            `json:"zeta"`
+		Alpha string         `json:"alpha"`
+		Mid   map[string]any `json:"mid,omitempty"`
+	}
+	for _, v := range []any{namedString("active"), namedString("12"), namedString(`{"a":1}`), namedBytes("blob"), json.RawMessage(compact), []string{"a", "<b>"}, map[namedString]int{"k": 1},
+		// envelopes: a map (encoding/json sorts its keys) holding values whose own member order is NOT sorted
+		map[string]any{"status": "ok", "user": unsortedFields{Zeta: 1, Alpha: "a"}},
+		map[string]any{"raw": json.RawMessage(`{"z":1,"a":{"y":2,"b":3}}`), "b": 1},
+		map[string]any{"list": []any{unsortedFields{Zeta: 2, Alpha: "b", Mid: map[string]any{"k": unsortedFields{Zeta: 3}}}}},
+		[]any{unsortedFields{Zeta: 4, Alpha: "c"}, map[string]string{"z": "1", "a": "2"}},
+		unsortedFields{Zeta: 5, Alpha: "d"}} {
+		vi++
+		if (len(compact)+vi)%4 != 0 {
+			continue // every case takes a quarter of the typed values (by the length of its document)
+		}
 		mb, merr := json.Marshal(v)
 		if merr != nil {
 			continue
@@ -153,6 +170,9 @@ func checkC14(c c14Case) error {
 		b, perr := parseJNode(viaValue)
 		if perr != nil || a.Canon() != b.Canon() {
 			return fmt.Errorf("Go value %T stores %q, its standard JSON encoding %q stores %q", v, clip(viaValue), mb, clip(viaText))
+		}
+		if (c.Opt == nil || c.Opt.SortKeys) && viaText != viaValue {
+			return fmt.Errorf("Go value %T and its standard JSON encoding %q store different texts although this configuration sorts members:\nvalue %q\ntext  %q", v, mb, clip(viaValue), clip(viaText))
 		}
 	}
 	return nil
@@ -260,6 +280,12 @@ func checkC14Body(c c14Case, compact string) error {
 	// (5) one byte buffer reused for documents of the same length (a read buffer, a patched template)
 	if err := checkC14BufferReuse(c, compact); err != nil {
 		return err
+	}
+	if string(c.Spaced) != compact {
+		// the same with an indented presentation of the document (a fixture read with os.ReadFile)
+		if err := checkC14BufferReuse(c, string(c.Spaced)); err != nil {
+			return fmt.Errorf("indented input: %w", err)
+		}
 	}
 	// (4) invalid input: one error, nothing written, ordinal consumed
 	root := scratchDir()
@@ -379,12 +405,21 @@ func checkC14BufferReuse(c c14Case, compact string) error {
 	cfg := spec.build(root)
 	ft := newFakeT(c.Test)
 	buf := make([]byte, len(compact))
+	// every other assertion carries a matcher that has nothing to do (a tolerated missing path): the document goes through
+	// the matcher stage and must come out - and leave the caller's buffer - as it went in
+	idle := func() []match.JSONMatcher {
+		return []match.JSONMatcher{match.Any("no.such.path.in.any.document").ErrOnMissingPath(false)}
+	}
 	for i, d := range docs {
 		copy(buf, d)
+		var ms []match.JSONMatcher
+		if i%2 == 0 {
+			ms = idle()
+		}
 		if c.API == "sjson" {
-			cfg.MatchStandaloneJSON(ft, buf)
+			cfg.MatchStandaloneJSON(ft, buf, ms...)
 		} else {
-			cfg.MatchJSON(ft, buf)
+			cfg.MatchJSON(ft, buf, ms...)
 		}
 		if string(buf) != d {
 			return fmt.Errorf("the call modified the caller's buffer: %q -> %q", clip(d), clip(string(buf)))
